@@ -25,7 +25,7 @@ Inductive mr_class :=
 | MRDiag       (* only the order of diagnostics on the UI error stream depends on it, no report byte *)
 | MROutOfScope (* not on the path of -top/-tree/-peek/-dot/-callgrind/-tags/-traces/-raw/-proto/-topproto:
                   interactive UI and web UI, source/disassembly listings, debug String() *)
-| MRFloat.     (* float64 accumulation in iteration order: order-SENSITIVE, finding F25 *)
+| MRFloat.     (* float64 accumulation in iteration order: order-SENSITIVE (was edgeEntropyScore, F28, repaired: no site has this class) *)
 
 Definition site := (string * string * string * Z)%type.
 
@@ -64,7 +64,6 @@ Definition maprange_table : list (site * mr_class) := [
   (("internal/graph/graph.go", "countTags", "n.NumericTags", 1), MRAccum);
   (("internal/graph/graph.go", "countTags", "t", 1), MRAccum);
   (("internal/graph/graph.go", "edgeEntropyScore", "edges", 1), MRAccum);         (* int64 total *)
-  (("internal/graph/graph.go", "edgeEntropyScore", "edges", 2), MRFloat);         (* score += -frac*log2(frac) in float64 *)
   (("internal/graph/graph.go", "isRedundantEdge", "n.In", 1), MRSearch);          (* reachability *)
   (("internal/graph/graph.go", "joinLabels", "s.Label", 1), MRSorted "strings");
   (("internal/graph/graph.go", "newTree", "parentNodeMap", 1), MRSortedLater "FlatNameOrder");
